@@ -78,6 +78,17 @@ CLAIMS["C09"] = dict(
     tech="CBMC harness proofs on verbatim slices of inline members and expression/projection fragments; scaled-integer arithmetic mode; native multi-call replay",
     ref="5/C09")
 
+CLAIMS["C10"] = dict(
+    cat="proof",
+    text="Write-back kernel of nudging (NudgingShiftSegment::updatePositionsFromSolver, the only place nudging writes a route) under contract: a fixed segment writes "
+         "nothing (empty frame, so first/last points stay put); the written position is the solver position clamped into [minSpaceLimit,maxSpaceLimit]; the loop body "
+         "writes exactly one coordinate of one indexed point and keeps the route's size (unbounded, one arbitrary index); whole function bounded (<= 4 indexes). "
+         "Which segments are fixed, ordering, channel computation, grouping and the resulting separation are undecided residue.",
+    note=BASE_TB + "Assumed read-only contract for ConnRef::displayRoute(); Point::operator[]'s `?:` reference return rewritten to if/return (cbmc crash work-around); "
+         "body+bounded-loop split for the write loop (DESIGN 2.9).",
+    tech="CBMC code contracts on the verbatim in-class member and its fragments (loop body, head fragment); bounded whole-function stand-in; native replay on the real class",
+    ref="5/C10")
+
 NA = {
     "C02": "Optimality of solve() is a KKT/convergence statement about an iterative active-set method over heap-allocated block trees in IEEE arithmetic; per-function facts need FP multiply/divide reasoning no installed back end finishes (DESIGN 3) and would not imply agreement with a QP oracle.",
     "C03": "'No route segment crosses an obstacle' is emergent from visibility-graph construction (std::list/std::set sweeps), A*, nudging and hyperedge improvement; only the leaf predicates are reachable and they are claimed under C16.",
@@ -92,7 +103,7 @@ NA = {
     "C19": "Decompositions over std::map-of-shared_ptr graphs and a sweep-line planariser; no function within the front end's reach carries the partition property.",
 }
 
-PENDING = {k: 'claim designed in DESIGN.md section 5 but its contract jobs are not built at this commit; not claimed yet' for k in ['C10','C17']}  # id -> reason (claims planned in DESIGN.md whose jobs are not built yet)
+PENDING = {k: 'claim designed in DESIGN.md section 5 but its contract jobs are not built at this commit; not claimed yet' for k in ['C17']}  # id -> reason (claims planned in DESIGN.md whose jobs are not built yet)
 
 
 def main():
